@@ -32,7 +32,10 @@ def setup(backend="stabilizer"):
         env.clock = Clock()
         V.reactor = env.clock
         Q.reactor = env.clock
+        for m in env.clock_modules:          # further modules with a module-global `reactor` (NetQASM backend, see qasm_sync)
+            m.reactor = env.clock
         return env.clock
+    env.clock_modules = []
     env.new_clock = new_clock
     new_clock()
     env.coins = []
